@@ -237,6 +237,9 @@ func VerifC07_EndOfInputWhileRunning() {
 func VerifC07_EndRightAfterStart() {
 	c := verifStartRawClient(verifBehavingPlugin(behaveOK, nil))
 	verifReach("C07/endafterstart/started")
+	if verifTier() > 0 {
+		verifSchedBound(2) // thorough: every pair of preemptions
+	}
 	two := nondetBool("twoRuns")
 	_ = c.enc.Encode(RuntimeMessage{MessageTypeWorkStart, "r1", WorkStartMessage{StepID: "inc", Config: map[string]any{"n": nondetInt64("n1")}}})
 	if two {
